@@ -3,3 +3,4 @@ import ArtModel.Search
 import ArtModel.Kernels
 import ArtModel.ARTMAP
 import ArtModel.Driver
+import ArtModel.Dispatch
